@@ -385,6 +385,18 @@ func check(c caseT) (msg string, nontrivial bool, classes []string) {
 		if err := A.VerifySignature(append([]byte(nil), c.Msg...), sig); err == nil {
 			return "A.VerifySignature accepts A's own signature although the nonces differ (reflection not rejected)", nontrivial, classes
 		}
+		// the same with message and signature in ONE buffer, the signature right
+		// behind the message - the layout of every received chunk (added after
+		// seeded change C14-C: a MAC computed into the spare capacity of the
+		// message overwrote the signature it was then compared with)
+		chunk := append(append(make([]byte, 0, len(c.Msg)+len(sig)+64), c.Msg...), sig...)
+		if err := A.VerifySignature(chunk[:len(c.Msg)], chunk[len(c.Msg):]); err == nil {
+			return "A.VerifySignature accepts A's own signature (reflection) when message and signature lie in one buffer, as in a received chunk", nontrivial, classes
+		}
+		junk := append(append(make([]byte, 0, len(c.Msg)+len(sig)+64), c.Msg...), bytes.Repeat([]byte{0xa5}, len(sig))...)
+		if err := A.VerifySignature(junk[:len(c.Msg)], junk[len(c.Msg):]); err == nil {
+			return "A.VerifySignature accepts made-up signature bytes when message and signature lie in one buffer, as in a received chunk", nontrivial, classes
+		}
 	}
 	if differ && !(bytes.Equal(send.Enc, recv.Enc) && bytes.Equal(send.IV, recv.IV)) {
 		if own, err := A.Decrypt(append([]byte(nil), ct...)); err == nil && bytes.Equal(own, c.Plain) {
